@@ -30,16 +30,16 @@ META = {
 
 def check(ctx):
     m = sc.build(ctx, "R10")
-    r10_1(ctx, m)
-    r10_2(ctx, m)
-    r10_3(ctx, m)
+    ctx.run(r10_1, m)
+    ctx.run(r10_2, m)
+    ctx.run(r10_3, m)
     ctx.not_decided.append("BGZF virtual offsets produced by tell() in write mode resolve on read across blocks (pysam's contract)")
     # mechanisms this property rests on (see shared.py): a change there is reported here as well
     from . import shared as _sh
 
-    _sh.path_tokenisers(ctx)
-    _sh.graph_loader(ctx)
-    _sh.cli_layer(ctx, "gaftools.cli.sort")
+    ctx.run(_sh.path_tokenisers)
+    ctx.run(_sh.graph_loader)
+    ctx.run(_sh.cli_layer, "gaftools.cli.sort")
 
 
 def index_param(m):
